@@ -68,7 +68,7 @@ def concrete_args(spec):
     """a simple valid concrete constructor call (used where only the class state matters)"""
     a = {}
     for name, segs in spec["fields"].items():
-        a[name] = 0
+        a[name] = 96 if name in ("alloclen", "alloc_len") else 0
     if "t_length" in a:
         a.update(t_length=2, t_dir=1, count=1)
     e = {}
